@@ -19,7 +19,7 @@ func init() {
 		Level: "exploration",
 		Rule: "case = one emulator process in test mode (ue_registration R in {1,2} quick / 1..4 thorough, other counts 0) with a generated valid configuration (IMSI of 14/15 digits, 2|3-digit MNC incl. leading zeros, K, OP only / OPc only / both, " +
 			"gNB id of 22..32 bits, name of 1..150 characters, three YAML quoting styles) against a reference AMF whose choices (RAND, SQN, AMF field, AMF-UE-NGAP-IDs at power-of-two boundaries, ngKSI 0..6, optional downlink IEs, Registration Accept options, backupAMFName) " +
-			"come from the case PRNG. Verdict: first check of the trace specification that fails, else emulator exit status and completion banner. distinct = hash(configuration, AMF choices); all non-trivial",
+			"come from the case PRNG. Verdict: first check of the trace specification that fails, else emulator exit status and completion banner. One trailing IE of a later specification version (ids 146 / 147 / above 164) ends the INITIAL CONTEXT SETUP REQUEST / NG SETUP RESPONSE in three cases of five; home-network digits repeated inside the MSIN; host names as address values. distinct = hash(configuration, AMF choices); all non-trivial",
 		Assumptions: []string{
 			"AF_UNIX/SOCK_SEQPACKET stands in for SCTP (hook: build tag verif, ConnectToAmf adopts an inherited socket)",
 			"the AMF only sends IEs the Release-15 schema of the library knows and sends a Configuration Update Command after Registration Complete (the emulator waits for a fourth downlink message, as Open5GS sends one)",
